@@ -828,6 +828,8 @@ def run_large_make_phantoms(ctx, res):
 
 
 def run(ctx, res):
+    from . import genarith
+    genarith.regenerate(ctx.pid, "audit_skeletons", res)   # regenerated tie: every statement of Assorter.overstatement / overstatement_assorter; scoring conventions proved on the regenerated text
     kept = []
     run_make_phantoms(ctx, res, kept)
     run_large_make_phantoms(ctx, res)
